@@ -1,6 +1,7 @@
 """C02 — using a model or a data object never changes it (no hidden side effects).
 Models: coq/Model/HourlyState.v (hourly model as a state machine), coq/Model/Store.v (caller-owned frames, data objects,
-hand-outs as locations; list ownership in fit), coq/Model/Gate.v (daily/billing/hourly life cycle, shared with C04);
+hand-outs as locations; list ownership in fit), coq/Model/Objects.v (several model objects in one process, class-level shared
+state), coq/Model/Gate.v (daily/billing/hourly life cycle, shared with C04);
 theorems: coq/Properties/C02.v; tie: flags read from the source (harness/translate_c02.py -> Generated/C02Gen.v) and a
 correspondence over operation HISTORIES executed on the real classes with real fits (this file)."""
 import json
@@ -16,7 +17,7 @@ import c02lib as L
 import translate_c02 as T
 
 warnings.simplefilter("ignore")
-IMPORTS = "From V Require Import Model.Gate Model.HourlyState Model.HourlyStateRun Model.Store Model.StoreRun Generated.C02Gen."
+IMPORTS = "From V Require Import Model.Gate Model.HourlyState Model.HourlyStateRun Model.Store Model.StoreRun Model.Objects Model.ObjectsRun Generated.C02Gen."
 NOCOQ = os.environ.get("C02_NOCOQ") == "1"
 
 
@@ -52,6 +53,19 @@ def systematic(fam, profile):
         out.append(("fitted", [g("1week"), g("1week"), p("1weekb_noobs"), p("partialyear_noobs"), p("fullyear_noobs"),
                                p("partialyear_noobs")]))
         out.append(("reloaded", [p("1day"), p("1month_noobs"), p("partialyear"), p("1day"), p("fullyear")]))
+    if profile == "default" and fam in ("Daily", "Billing", "Hourly"):
+        # SEVERAL model objects alive in one process: the object under test is fitted here (no copy), other objects fit
+        # other meters (of the same family and, daily <-> billing, of the family that shares the implementation),
+        # predict, are stored; every object's to_json() must stay what it was
+        cross = {"Daily": "Billing", "Billing": "Daily"}.get(fam)
+        ops = [("to_json",), ("fit_other", 0, "default"), p(mid), ("to_json",), ("fit_other", 1, "lowthr"), ("use_other", 0, 1),
+               p(small), ("reload",), p(mid)]
+        out.append(("live", ops))
+        if cross:
+            out.append(("live", [p(small), ("fit_other", 0, "default", cross), p(small), ("use_other", 0, 0),
+                                 ("fit_other", 1, "default"), ("use_other", 1, 2), ("to_json",), p(mid)]))
+        out.append(("fitted", [("fit_other", 0, "default"), ("fit_other", 1, "default"), ("use_other", 0, 0), p(small),
+                               ("use_other", 1, 1)]))
     if fam == "Hourly" and profile == "supp":
         q = ("predict", ix(fam, "H.rep_1weekb_occ"))
         out.append(("fitted", [p("1weekb"), q, p("1weekb"), ("to_json",), p("fullyear")]))
@@ -95,16 +109,25 @@ def random_history(rng, fam, profile, maxlen=9):
             ops.append(("to_json",))
         elif x < 0.66:
             ops.append(("reload",))
-        elif x < 0.72 and nfit < 1 and fam not in ("Caltrack",):
-            ops.append(("fit_other", rng.randrange(4), rng.choice(["default", "lowthr"])))
+        elif x < 0.72 and nfit < 2 and fam not in ("Caltrack",):
+            cross = {"Daily": "Billing", "Billing": "Daily"}.get(fam)
+            o = ("fit_other", rng.randrange(4), rng.choice(["default", "lowthr"]))
+            if cross and rng.random() < 0.3:
+                o = o + (cross,)
+            ops.append(o)
             nfit += 1
+        elif x < 0.75:
+            ops.append(("use_other", rng.randrange(3), rng.randrange(8)))
         elif x < 0.80:
             ops.append(("construct", rng.randrange(len(L.SPECS[fam]))))
         elif x < 0.90:
             ops.append(("df", (rng.choice(["O", "O", "L"]), rng.randrange(len(names)))))
         else:
             ops.append(("mutate", rng.choice(["H", "H", "R"]), rng.randrange(6), rng.randrange(len(L.MUTATIONS))))
-    return rng.choice(["fitted", "reloaded"]), ops
+    lin = rng.choice(["fitted", "reloaded"])
+    if fam in ("Daily", "Billing", "Hourly") and profile == "default" and rng.random() < (0.5 if fam == "Billing" else 0.25):
+        lin = "live"                           # costs a fit (daily ~3 s, hourly ~1.5 s, billing ~0.1 s)
+    return lin, ops
 
 
 def by_name(fam, ops):
@@ -120,7 +143,8 @@ def by_name(fam, ops):
             k, n = o[1]
             o[1] = (k, ix(fam, n) if isinstance(n, str) else n)
         elif o[0] == "fit_other" and isinstance(o[1], str):
-            bases = [n for n in L.OBJ_ORDER[fam] if L.OBJ[n]["role"] == "baseline" and n != L.MAIN_BASE[fam]]
+            ofam = o[3] if len(o) > 3 else fam
+            bases = [n for n in L.OBJ_ORDER[ofam] if L.OBJ[n]["role"] == "baseline" and n != L.MAIN_BASE[fam]]
             o[1] = bases.index(o[1])
         out.append(tuple(o))
     return out
@@ -270,7 +294,10 @@ def main():
     run = Run("C02")
     run.cov["rule"] = (
         "histories of 3-12 operations on one fitted model object per family (daily, billing, hourly with/without GHI, CalTRACK "
-        "hourly), started from the fitted object or from from_json: {predict(A_i) over reporting sets of 1 day / 1 week / 1 month / "
+        "hourly), started from the fitted object, from from_json, or fitted in the worker itself and used without any copy "
+        "('live') with up to 3 OTHER model objects of the same family (daily<->billing: also of the other one) alive in the "
+        "process, fitted on other meters, predicting and being stored in between; every object's to_json() is compared "
+        "before/after every operation: {predict(A_i) over reporting sets of 1 day / 1 week / 1 month / "
         "partial year / full year, with and without observed, with and without GHI; to_json/to_dict; to_json+from_json; fit of "
         "another meter by another model object (also a poor fit); construction of a data object from caller-owned frames/series "
         "(frame constructors, from_series, zero readings, datetime column, freq-less index); .df access; in-place mutation of a "
@@ -295,7 +322,8 @@ def main():
     ok = True
     if not NOCOQ:
         for attempt in range(3):
-            ok = run.check_proofs("Properties/C02.v", ["Proofs/HourlyStateProofs.v", "Proofs/StoreProofs.v", "Proofs/SideEffectProofs.v"],
+            ok = run.check_proofs("Properties/C02.v", ["Proofs/HourlyStateProofs.v", "Proofs/StoreProofs.v", "Proofs/SideEffectProofs.v",
+                                                       "Proofs/ObjectsProofs.v"],
                                   generated=["Generated/C02Gen.v"])
             # other checks / builders run make in the same tree: a dependency that was being rebuilt by them at that
             # moment shows up as a missing or inconsistent .vo, not as a failed proof; build again
@@ -305,7 +333,7 @@ def main():
             run.log("build disturbed by a concurrent make, retrying")
             time.sleep(5 + 10 * attempt)
             run.proof_log = ""
-        run.ensure_models(["Generated/C02Gen.v", "Model/HourlyStateRun.v", "Model/StoreRun.v", "Model/CasesLib.v"])
+        run.ensure_models(["Generated/C02Gen.v", "Model/HourlyStateRun.v", "Model/StoreRun.v", "Model/ObjectsRun.v", "Model/CasesLib.v"])
     t0 = time.time()
     problems = L.build_world(run.seed)
     run.log("world built in %.1fs (%d data objects)" % (time.time() - t0, len(L.OBJ)))
@@ -353,7 +381,7 @@ def main():
         names = L.OBJ_ORDER[job["fam"]]
         for o in job["ops"]:
             if o[0] == "predict":
-                for lin in ("fitted", "reloaded"):
+                for lin in ("fitted", "reloaded"):      # (also for "live" histories: the hourly correspondence asks about the data set)
                     need.add((job["fam"], job["profile"], lin, names[o[1] % len(names)]))
         for n in names:                       # the hourly correspondence asks whether the numeric stage raises on a data set
             if job["fam"] == "Hourly" and (job["fam"], job["profile"], "fitted", n) in need:
